@@ -281,6 +281,8 @@ def check_C01(tier):
     m = 4 if quick else 5
     for alpha, tab in [("ring", "default"), ("frag", "default"), ("caps", "tight"), ("branch", "wide")]:
         gen_replay(rep, "%s_%s" % (alpha, tab), DEC[alpha], TABLES[tab], m, fastjit=quick, classify=classify_C01)
+    from alphabets import CHARGES2
+    gen_replay(rep, "charges2_lowq", CHARGES2, TABLES["lowq"], m, fastjit=quick, classify=classify_C01)
     coverage_run(rep, DEC["frag"] + ["[epsilon]", "[Foo]"], "default", 3)
     apalache_inductive(rep)
     trace_C01(rep, quick)
